@@ -117,6 +117,18 @@ type c05Case struct {
 	// metric, Item.Key.Metric / Item.MetricMeta = the built-in one); every row then carries the meta of its own
 	// Key.Metric, as the real callers' rows do. 0 = no such row, rows carry no meta (the sampler looks everything up).
 	acctRow int
+	// whale-slot family: the rows are given explicitly (rows is empty then); acctZero: every row without whale weight is
+	// an accounted status row (that is where weightless rows come from in production: the agent hands ingestion-status
+	// rows about metric M to the sampler accounted to M and with whale weight 0) and every row carries its own meta
+	custom   []c05RowType
+	acctZero bool
+}
+
+func (c *c05Case) nRows() int {
+	if c.custom != nil {
+		return len(c.custom)
+	}
+	return len(c.rows)
 }
 
 // c05StatusMeta is the meta an accounted row carries: a built-in-like status metric (not NoSampleAgent, no fair key,
@@ -125,6 +137,9 @@ var c05StatusMeta = &format.MetricMetaValue{MetricID: format.BuiltinMetricIDInge
 
 // rowTypes resolves the rows of the case.
 func (c *c05Case) rowTypes() []c05RowType {
+	if c.custom != nil {
+		return c.custom
+	}
 	if c.largeN > 0 {
 		out := make([]c05RowType, c.largeN)
 		for i := range out {
@@ -144,6 +159,9 @@ func (c *c05Case) String() string {
 	for _, r := range c.rows {
 		names = append(names, c05Alphabet[r].name)
 	}
+	for _, rt := range c.custom {
+		names = append(names, rt.name)
+	}
 	if c.largeN > 0 {
 		names = append(names, fmt.Sprintf("%d identical rows of metric 1, size %d each", c.largeN, c.largeSize))
 	}
@@ -160,6 +178,9 @@ func (c *c05Case) String() string {
 	}
 	if c.acctRow > 0 {
 		s += fmt.Sprintf(" accounted(row %d has Key.Metric/MetricMeta of a built-in status metric and is accounted to its metric; every row carries the meta of its own Key.Metric)", c.acctRow-1)
+	}
+	if c.acctZero {
+		s += " accounted(every row with whale weight <= 0 has Key.Metric/MetricMeta of a built-in status metric and is accounted to its metric; every row carries the meta of its own Key.Metric)"
 	}
 	return s
 }
@@ -193,9 +214,9 @@ func c05BuildItems(c *c05Case, meta *c05Meta) []*MultiItem {
 	items := make([]*MultiItem, len(rts))
 	for i, rt := range rts {
 		it := &MultiItem{Key: Key{Metric: rt.metric}, SF: 1}
-		if c.acctRow > 0 {
+		if c.acctRow > 0 || c.acctZero {
 			it.MetricMeta = meta.metrics[rt.metric]
-			if c.acctRow-1 == i {
+			if c.acctRow-1 == i || (c.acctZero && rt.whale <= 0) {
 				it.Key.Metric = c05StatusMeta.MetricID
 				it.MetricMeta = c05StatusMeta
 			}
@@ -719,9 +740,82 @@ func c05Multisets(alpha, maxLen int, f func(rows []int)) {
 	rec(0)
 }
 
+// ---------- whale-slot family ----------
+//
+// sampler.sample gives floor(len/sf/2) rows of a sampled leaf group ("whale slots") to the rows of largest whale weight,
+// kept unconditionally, and selects the rest at random with the factor doubled. The general enumeration has whale
+// weights 1 and 9 only and at most one slot. This family takes every leaf-group shape (n rows of one metric, equal
+// sizes 1 or 2, every budget below the group's size that affords at least one slot: n*budget >= 2*sumSize) and puts
+// EVERY whale weight of {0, 1, 2} in EVERY position (3^n ordered assignments: no weight, positive, equal, distinct;
+// fewer / as many / more positive rows than slots; all rows weightless), under the option sets that lead to sample()
+// along different paths (metric leaf; all partition levels on; fair-key leaf; agent mode with the weightless rows being
+// accounted status rows as in production). Oracle: the unchanged clauses (exactly one callback per row per
+// execution, SF x P(keep) = 1, unconditionally kept => SF 1, never kept is a violation).
+//
+// The shapes are filtered by the size of their choice tree (grid^(rows left after the slots), predicted with the
+// statement's own arithmetic) - an enumeration bound, reported in bounds.whale_slot_family; the oracle never uses it.
+type c05WhaleVariant struct {
+	metric   int32
+	flags    int
+	acctZero bool
+	maxN     int
+}
+
+func c05WhaleCases(maxN int, costLimit func(n int) int64, variants []c05WhaleVariant) (cases []c05Case, shapes []string) {
+	weights := []float64{0, 1, 2}
+	for n := 3; n <= maxN; n++ {
+		for _, size := range []int{1, 2} {
+			sumSize := n * size
+			for b := 1; b < sumSize; b++ {
+				pos := n * b / sumSize / 2
+				if pos < 1 {
+					continue
+				}
+				// rows left after the slots are selected with factor 2*sumSize/b; smallest aligned grid
+				grid := 0
+				for g := 1; g <= c05MaxGrid; g++ {
+					if (g*b)%(2*sumSize) == 0 {
+						grid = g
+						break
+					}
+				}
+				if grid == 0 {
+					continue
+				}
+				cost := int64(1)
+				for i := 0; i < n-pos; i++ {
+					cost *= int64(grid)
+				}
+				if cost > costLimit(n) {
+					continue
+				}
+				shapes = append(shapes, fmt.Sprintf("%dx%dB@%d(slots %d, grid %d)", n, size, b, pos, grid))
+				total := 1
+				for i := 0; i < n; i++ {
+					total *= len(weights)
+				}
+				for a := 0; a < total; a++ {
+					for _, v := range variants {
+						if n > v.maxN {
+							continue
+						}
+						rows := make([]c05RowType, n)
+						for i, x := 0, a; i < n; i, x = i+1, x/len(weights) {
+							w := weights[x%len(weights)]
+							rows[i] = c05RowType{name: fmt.Sprintf("m%ds%dw%g", v.metric, size, w), metric: v.metric, key: 1, size: size, whale: w}
+						}
+						cases = append(cases, c05Case{custom: rows, flags: v.flags, budget: int64(b), acctZero: v.acctZero})
+					}
+				}
+			}
+		}
+	}
+	return
+}
+
 func TestVerifC05(t *testing.T) {
 	rep := mc.NewReport("C05")
-	rep.Rule = "every multiset of at most R rows over a 9-letter row alphabet (4 metrics in 2 namespaces / 3 groups with unequal weights; one NoSampleAgent metric; one metric with a fair key of 2 values; sizes 0/1/2; whale weights; rows with and without a unique-set) x every budget x no / one fixed per-metric budget (carried by every metric in turn, below and at a row size) x all 128 combinations of the 7 sampler options; buckets of <= 2 rows again with every row in turn being a row accounted to its metric while its own key and attached meta are a built-in status metric's; for each, every outcome of every rounding draw and every grid point of every selection draw. Non-trivial = some row is kept with probability strictly between 0 and 1"
+	rep.Rule = "every multiset of at most R rows over a 9-letter row alphabet (4 metrics in 2 namespaces / 3 groups with unequal weights; one NoSampleAgent metric; one metric with a fair key of 2 values; sizes 0/1/2; whale weights; rows with and without a unique-set) x every budget x no / one fixed per-metric budget (carried by every metric in turn, below and at a row size) x all 128 combinations of the 7 sampler options; buckets of <= 2 rows again with every row in turn being a row accounted to its metric while its own key and attached meta are a built-in status metric's; whale-slot family: every leaf group of 3..N rows of one metric (equal sizes 1 or 2) x every budget that affords at least one whale slot (tree-size bound, see bounds.whale_slot_family) x every assignment of the whale weights {0,1,2} to the rows (no weight / positive / equal / distinct in every position; fewer, as many, more positive rows than slots) x option sets reaching sample() as metric leaf, through every partition level, as fair-key leaf, and in agent mode with the weightless rows being accounted status rows; for each, every outcome of every rounding draw and every grid point of every selection draw. Non-trivial = some row is kept with probability strictly between 0 and 1"
 	maxRows := mc.Pick(3, 4)
 	budgets := mc.Pick([]int64{1, 2, 3, 100}, []int64{0, 1, 2, 3, 4, 6, 100})
 	maxExec := int64(mc.Pick(16000, 400000))
@@ -809,11 +903,33 @@ func TestVerifC05(t *testing.T) {
 			}
 		}
 	})
+	// whale-slot family (see c05WhaleCases)
+	whaleMaxN := mc.Pick(5, 6)
+	whaleLimit := func(n int) int64 {
+		if n <= 4 {
+			return 600
+		}
+		if n == 5 {
+			return int64(mc.Pick(300, 700))
+		}
+		return 1100
+	}
+	whaleVariants := []c05WhaleVariant{
+		{metric: 1, flags: 0, maxN: 6},                             // leaf = metric partition
+		{metric: 1, flags: 1, acctZero: true, maxN: mc.Pick(4, 5)}, // agent mode, weightless rows are accounted status rows
+		{metric: 1, flags: 8 | 16 | 32, maxN: 4},                   // every partition level on the way
+		{metric: 3, flags: 64, maxN: 4},                            // leaf = fair-key partition
+		{metric: 1, flags: 2, acctZero: true, maxN: mc.Pick(0, 4)}, // aggregator mode with SampleKeepSingle
+	}
+	whaleCases, whaleShapes := c05WhaleCases(whaleMaxN, whaleLimit, whaleVariants)
+	firstWhaleCase := len(cases)
+	cases = append(cases, whaleCases...)
+	rep.Bounds["whale_slot_family"] = fmt.Sprintf("%d cases: shapes rows x size @budget %v, each x every assignment of whale weights {0,1,2} to the rows x option sets %+v (maxN = largest group the set is applied to)", len(whaleCases), whaleShapes, whaleVariants)
 	metas := []*c05Meta{c05BuildMeta(0), c05BuildMeta(1)}
 
 	var mu sync.Mutex
 	total := mc.Stats{Exhaustive: true, BoundDone: -1}
-	var nCases, nNontrivial, skippedGrid, skippedTree int64
+	var nCases, nNontrivial, skippedGrid, skippedTree, whaleExecs, whaleSampled int64
 	gridHist := map[int]int64{}
 	execByRows := map[int]int64{}
 	casesByRows := map[int]int64{}
@@ -832,8 +948,14 @@ func TestVerifC05(t *testing.T) {
 		mu.Lock()
 		defer mu.Unlock()
 		nCases++
-		casesByRows[len(c.rows)]++
-		execByRows[len(c.rows)] += res.execs
+		casesByRows[c.nRows()]++
+		execByRows[c.nRows()] += res.execs
+		if i >= firstWhaleCase {
+			whaleExecs += res.execs
+			if res.sampled {
+				whaleSampled++
+			}
+		}
 		for _, st := range stats {
 			total.Executions += st.Executions
 			total.Points += st.Points
@@ -936,6 +1058,8 @@ func TestVerifC05(t *testing.T) {
 	rep.Bounds["cases_skipped_tree_above_max_executions"] = skippedTree
 	rep.Bounds["selection_grid_histogram"] = fmt.Sprint(gridHist)
 	rep.Bounds["cases_by_bucket_rows"] = fmt.Sprint(casesByRows)
+	rep.Bounds["whale_slot_family_executions"] = whaleExecs
+	rep.Bounds["whale_slot_family_cases_with_sampled_rows"] = whaleSampled
 	rep.Bounds["executions_by_bucket_rows"] = fmt.Sprint(execByRows)
 	if skippedGrid+skippedTree > 0 {
 		rep.Cap(fmt.Sprintf("%d cases not decided (selection grid > %d: %d, choice tree > %d executions: %d)", skippedGrid+skippedTree, c05MaxGrid, skippedGrid, maxExec, skippedTree))
